@@ -222,6 +222,8 @@ def frag_utf16():
         payload().map(lambda p: utf16(p[:20])),
         st.binary(min_size=5, max_size=12).map(utf16),
         st.tuples(payload(), payload()).map(lambda t: utf16(t[0][:10] + b"abcdefg") + b"\x00\x00" + utf16(t[1][:10] + b"hijklmn")),
+        # runs chained through NUL gaps of any length (an odd gap shifts the alignment of the next run)
+        st.lists(st.tuples(st.sampled_from(WORDS).map(lambda w: utf16((w + b"abcdefg")[: 6 + len(w) % 4])), st.integers(0, 7)), min_size=2, max_size=5).map(lambda rs: b"".join(r + b"\x00" * g for r, g in rs)),
     )
 
 
@@ -301,6 +303,16 @@ def frag_path():
     )
 
 
+def frag_straddle():
+    """two plain indicators glued so that their spans overlap partially (a path whose last segment begins an e-mail address,
+    a domain or a cmd command; an e-mail address whose domain begins a Windows path)"""
+    net = st.sampled_from([b"john@example.com", b"www.evil-site.com", b"first.last@mail.example.org", b"cdn.example.org", b"cmd.exe /c dir"])
+    return st.one_of(
+        _j(st.sampled_from([b"/tmp/abc/", b"/var/www/", b"C:\\Users\\bob\\", b"/a/bb/ccc/", b"D:\\x\\"]), net),
+        _j(st.sampled_from([b"a.b@example.com", b"user@mail.example.org"]), st.sampled_from([b"\\dir\\file.exe", b"\\x\\y.dll"])),
+    )
+
+
 def frag_vba():
     return _j(st.sampled_from([b"CreateObject(", b"createobject("]), st.sampled_from([b'"WScript.Shell"', b"(a)(b)", b"((", b"x", b""]), st.sampled_from([b")", b"", b"))"]))
 
@@ -337,6 +349,7 @@ def base_fragment():
         frag_url(),
         frag_net(),
         frag_path(),
+        frag_straddle(),
         frag_vba(),
         st.sampled_from(KEYWORDS),
         st.sampled_from(EDGE),
